@@ -34,7 +34,7 @@ func init() {
 		StubParts:  []string{"disk: in-memory io.Reader / io.Writer with tape-chosen fragmentation and failure byte", "GenerationEvaluator of the simulated experiment (scripted)", "wall clock of the simulated experiment (fake clock)"},
 		FaultKinds: []string{"fault.write_error", "fault.write_error_transient", "fault.read_error", "fault.short_reads", "fault.one_byte_reads", "fault.eof_with_data"},
 		Assumes:    []string{"weights, trait parameters and fitness values are finite float64 (NaN / Inf are not reachable by the operators from finite start values within the documented option ranges)", "generation records carry a champion, as every record made by an evaluator that fills the generation statistics does (Generation.Encode omits a nil champion while Decode expects one: observed and counted, not judged)", "Trial.Duration and the champion's species are not part of the saved form (the statement lists trials, generations, champions and the fitness / complexity / diversity / winner statistics)", "a fast solver whose folded bias sum overflowed to infinity (only reachable with the planted extreme weights) cannot be expressed in JSON and is skipped", "nothing is demanded of reads of torn data (a write that reported its error): counted only"},
-		ProbeNames: []string{"probe.rt.plain", "probe.rt.yaml", "probe.rt.yaml_modular", "probe.rt.organism", "probe.rt.population", "probe.rt.fastsolver", "probe.rt.fastsolver_modular", "probe.rt.experiment", "probe.genome.disabled", "probe.genome.recurrent", "probe.genome.nil_trait", "probe.genome.nondefault_activation", "probe.weight.extreme", "probe.sweep", "probe.write_fault.error_reported", "probe.read_fault.error_reported", "probe.experiment.cut_short"},
+		ProbeNames: []string{"probe.rt.plain", "probe.rt.yaml", "probe.rt.yaml_modular", "probe.rt.organism", "probe.organism_after_turnover", "probe.rt.population", "probe.rt.fastsolver", "probe.rt.fastsolver_modular", "probe.rt.experiment", "probe.genome.disabled", "probe.genome.recurrent", "probe.genome.nil_trait", "probe.genome.nondefault_activation", "probe.weight.extreme", "probe.sweep", "probe.write_fault.error_reported", "probe.read_fault.error_reported", "probe.experiment.cut_short"},
 	})
 }
 
@@ -816,11 +816,18 @@ func scenarioC15(c *RunCtx) {
 		c.Skip("precondition:geneless-random-genome")
 	}
 	epochs := t.Range("epochs", 0, maxEpochs)
+	var elders []*genetics.Organism // organisms of the generation before the last turnover (a caller may keep champions)
 	for e := 0; e < epochs; e++ {
 		snap := StepEpoch(c, w, false, nil, c.LibSoft)
 		if snap.Err != nil {
 			c.Counters["abandoned.evolve-error"]++
 			c.Skip("evolve-error")
+		}
+		elders = elders[:0]
+		for _, os := range snap.Orgs {
+			if len(os.Org.Genotype.Genes) > 0 {
+				elders = append(elders, os.Org)
+			}
 		}
 	}
 	for _, o := range w.Pop.Organisms {
@@ -879,6 +886,12 @@ func scenarioC15(c *RunCtx) {
 				}
 			}
 		case 3:
+			if len(elders) > 0 && t.Chance("elder", 1, 2) {
+				// an organism that has been through a turnover: its fitness was shared and adjusted, the value it was
+				// evaluated with is kept aside; the binary form must restore the fitness the organism holds now
+				org = elders[t.Draw("pick.elder", len(elders))]
+				c.Count("probe.organism_after_turnover")
+			}
 			c.runObject(organismObject(org), mode, sweep, interesting)
 		case 4:
 			c.runObject(populationObject(w), mode, sweep, interesting)
